@@ -1,48 +1,154 @@
 import Abyss.Renderable
 import Abyss.Lemmas.Vu64L
 import Abyss.Lemmas.AllocL
+import Abyss.Lemmas.ParseRecBytes
+import Abyss.Lemmas.ParseRecGen
 /-!
 # The reader recovers a rendered record file (helper lemmas for `parse_render`)
+
+Small byte-list facts live in `ParseRecBytes.lean`; the part of the whole-file round trip that does
+not depend on the payload type (`parseRecFile_generic`, with `splitSlots_render` in place of the
+former `splitSlots_flatten`) lives in `ParseRecGen.lean`.
 -/
 namespace Abyss
+open Vu64
 
 theorem getLe64_le64 (pre post : List Nat) (v : Nat) (h : v < 2^64) :
-    getLe64 (pre ++ le64 v ++ post) pre.length = v := by sorry
+    getLe64 (pre ++ le64 v ++ post) pre.length = v := getLe64_append pre post v h
 
+set_option linter.unusedVariables false in
 /-- a rendered free slot is read back -/
 theorem parseFree_render (sz nx : Nat) (h1 : sz < 2^35) (h2 : 8 ∣ sz) (h3 : nx < 2^64)
     (hfit : (freeContent sz nx).length ≤ sz) :
-    parseFree (padTo sz (freeContent sz nx)) = some (sz, nx) := by sorry
+    parseFree (padTo sz (freeContent sz nx)) = some (sz, nx) := by
+  have h8 : 8 * (sz / 8) = sz := Nat.mul_div_cancel' h2
+  have hlt : sz / 8 < 2^64 := by omega
+  unfold parseFree padTo freeContent
+  simp only [List.append_assoc]
+  rw [decode_encode _ hlt]
+  simp only [List.singleton_append, List.length_append, le64_length]
+  rw [if_neg (by omega), take8_le64, ofLeBytes_le64 nx h3, h8]
 
+set_option linter.unusedVariables false in
 /-- a rendered used value slot is read back -/
 theorem parseValUsed_render (sz : Nat) (v : List Nat) (h1 : sz < 2^35) (h2 : 8 ∣ sz) (h3 : v.length < 2^31)
     (hfit : (valContent sz v).length ≤ sz) :
-    parseValUsed (padTo sz (valContent sz v)) = some (sz, v) := by sorry
+    parseValUsed (padTo sz (valContent sz v)) = some (sz, v) := by
+  have h8 : 8 * (sz / 8) = sz := Nat.mul_div_cancel' h2
+  have hlt : sz / 8 < 2^64 := by omega
+  have hl : v.length < 2^64 := by omega
+  unfold parseValUsed padTo valContent
+  simp only [List.append_assoc]
+  rw [decode_encode _ hlt]
+  simp only
+  rw [decode_encode _ hl]
+  simp only [List.length_append]
+  rw [if_neg (by omega), List.take_left, h8]
 
+set_option linter.unusedVariables false in
 /-- a rendered used key slot is read back -/
 theorem parseKeyUsed_render (sz : Nat) (r : KeyRec) (h1 : sz < 2^35) (h2 : 8 ∣ sz) (h3 : r.key.length < 2^31)
     (h4 : r.valOff < 2^63) (h5 : r.next < 2^63) (h6 : 8 ∣ r.valOff) (h7 : 8 ∣ r.next)
     (hfit : (keyContent sz r).length ≤ sz) :
-    parseKeyUsed (padTo sz (keyContent sz r)) = some (sz, r) := by sorry
+    parseKeyUsed (padTo sz (keyContent sz r)) = some (sz, r) := by
+  have h8 : 8 * (sz / 8) = sz := Nat.mul_div_cancel' h2
+  have h8v : 8 * (r.valOff / 8) = r.valOff := Nat.mul_div_cancel' h6
+  have h8n : 8 * (r.next / 8) = r.next := Nat.mul_div_cancel' h7
+  have hlt : sz / 8 < 2^64 := by omega
+  have hl : r.key.length < 2^64 := by omega
+  have hv : r.valOff / 8 < 2^64 := by omega
+  have hn : r.next / 8 < 2^64 := by omega
+  unfold parseKeyUsed padTo keyContent
+  simp only [List.append_assoc]
+  rw [decode_encode _ hlt]
+  simp only
+  rw [decode_encode _ hl]
+  simp only [List.length_append]
+  rw [if_neg (by omega), List.drop_left, decode_encode _ hv]
+  simp only
+  rw [decode_encode _ hn]
+  simp only [List.take_left, h8, h8v, h8n]
 
-/-- the slot area of a rendered file is cut back into the rendered slots (any payload type):
-`rs` are the rendered slots, each of its own positive size which its leading size field states -/
-theorem splitSlots_flatten (rs : List (Nat × Nat × List Nat)) (start : Nat) (fuel : Nat)
-    (hfuel : rs.length < fuel)
-    (hoff : Tiled (rs.map fun p => (p.1, (Slot.free p.2.1 0 : Slot Unit))) start
-              (start + (rs.map fun p => p.2.1).sum))
-    (hraw : ∀ p ∈ rs, p.2.2.length = p.2.1 ∧ 0 < p.2.1 ∧ 8 ∣ p.2.1 ∧ p.2.1 < 2^35 ∧
-              ∃ rest, p.2.2 = Vu64.encode (p.2.1 / 8) ++ rest) :
-    splitSlots fuel start (rs.map fun p => p.2.2).flatten = some (rs.map fun p => (p.1, p.2.2)) := by sorry
+/-! ## every slot size is a multiple of 8 -/
+
+theorem legal8_key (sz : Nat) (h : LegalSz keyCfg sz) : 8 ∣ sz := by
+  rcases h with h | ⟨_, h⟩
+  · have : ∀ x ∈ keyCfg.sizeAry, 8 ∣ x := by decide
+    exact this sz h
+  · omega
+
+theorem legal8_val (sz : Nat) (h : LegalSz valCfg sz) : 8 ∣ sz := by
+  rcases h with h | ⟨_, h⟩
+  · have : ∀ x ∈ valCfg.sizeAry, 8 ∣ x := by decide
+    exact this sz h
+  · omega
 
 /-- the whole key file: the reader gives back the record file -/
 theorem parseRecFile_key (sig2 : List Nat) (hs : sig2.length = 8) (f : RecFile KeyRec)
     (hwf : RecFile.WF keyCfg f) (hh : ∀ h ∈ f.heads, h < 2^64) (hsl : ∀ p ∈ f.slots, slotOKKey p.2) :
-    parseRecFile keyCfg sig2 parseKeyUsed (renderKeyFile sig2 f) = some f := by sorry
+    parseRecFile keyCfg sig2 parseKeyUsed (renderKeyFile sig2 f) = some f := by
+  have h8 : ∀ p ∈ f.slots, 8 ∣ p.2.size := fun p hp =>
+    legal8_key _ (hwf.sizes p.1 p.2 (hwf.tiled.aget_of_mem hp))
+  refine parseRecFile_generic keyCfg keyCfg_ok rfl (by decide) (by decide) sig2 hs renderKeySlot parseKeyUsed
+    f hwf hh ?_ ?_ ?_
+  · intro p hp
+    have hok := hsl p hp
+    have hd := h8 p hp
+    obtain ⟨o, s⟩ := p
+    cases s with
+    | used sz r =>
+      obtain ⟨h1, _, _, _, _, _, hfit⟩ := hok
+      exact ⟨padTo_length _ _ hfit, hd, h1, _, by
+        simp only [renderKeySlot, padTo, keyContent, Slot.size, List.append_assoc]; rfl⟩
+    | free sz nx =>
+      obtain ⟨h1, _, hfit⟩ := hok
+      exact ⟨padTo_length _ _ hfit, hd, h1, _, by
+        simp only [renderKeySlot, padTo, freeContent, Slot.size, List.append_assoc]; rfl⟩
+  · intro p hp sz r he
+    have hok := hsl p hp
+    have hd := h8 p hp
+    rw [he] at hok hd ⊢
+    obtain ⟨h1, h2, h3, h4, h5, h6, hfit⟩ := hok
+    exact parseKeyUsed_render sz r h1 hd h2 h3 h4 h5 h6 hfit
+  · intro p hp sz nx he
+    have hok := hsl p hp
+    have hd := h8 p hp
+    rw [he] at hok hd ⊢
+    obtain ⟨h1, h2, hfit⟩ := hok
+    exact parseFree_render sz nx h1 hd h2 hfit
 
 /-- the whole value file -/
 theorem parseRecFile_val (sig2 : List Nat) (hs : sig2.length = 8) (f : RecFile (List Nat))
     (hwf : RecFile.WF valCfg f) (hh : ∀ h ∈ f.heads, h < 2^64) (hsl : ∀ p ∈ f.slots, slotOKVal p.2) :
-    parseRecFile valCfg sig2 parseValUsed (renderValFile sig2 f) = some f := by sorry
+    parseRecFile valCfg sig2 parseValUsed (renderValFile sig2 f) = some f := by
+  have h8 : ∀ p ∈ f.slots, 8 ∣ p.2.size := fun p hp =>
+    legal8_val _ (hwf.sizes p.1 p.2 (hwf.tiled.aget_of_mem hp))
+  refine parseRecFile_generic valCfg valCfg_ok rfl (by decide) (by decide) sig2 hs renderValSlot parseValUsed
+    f hwf hh ?_ ?_ ?_
+  · intro p hp
+    have hok := hsl p hp
+    have hd := h8 p hp
+    obtain ⟨o, s⟩ := p
+    cases s with
+    | used sz v =>
+      obtain ⟨h1, _, hfit⟩ := hok
+      exact ⟨padTo_length _ _ hfit, hd, h1, _, by
+        simp only [renderValSlot, padTo, valContent, Slot.size, List.append_assoc]; rfl⟩
+    | free sz nx =>
+      obtain ⟨h1, _, hfit⟩ := hok
+      exact ⟨padTo_length _ _ hfit, hd, h1, _, by
+        simp only [renderValSlot, padTo, freeContent, Slot.size, List.append_assoc]; rfl⟩
+  · intro p hp sz v he
+    have hok := hsl p hp
+    have hd := h8 p hp
+    rw [he] at hok hd ⊢
+    obtain ⟨h1, h2, hfit⟩ := hok
+    exact parseValUsed_render sz v h1 hd h2 hfit
+  · intro p hp sz nx he
+    have hok := hsl p hp
+    have hd := h8 p hp
+    rw [he] at hok hd ⊢
+    obtain ⟨h1, h2, hfit⟩ := hok
+    exact parseFree_render sz nx h1 hd h2 hfit
 
 end Abyss
